@@ -18,6 +18,11 @@ def run(prop: str, tier: str, replay: str = "") -> int:
         model = Model()
         rep = Report(prop, tier)
         rep.analysed.update({"repo": model.root, "modules": len(model.modules), "classes": len(model.classes), "functions": len(model.funcs)})
+        if model.heal_log:
+            # functions whose current form was proven equivalent to the reviewed form (sa/equiv.py) and analysed in that form
+            rep.analysed["equivalence_layer"] = model.heal_log
+            for line in model.heal_log:
+                print(f"   equiv: {line}")
         mod.run(model, rep)
         st_summary = None
         if tier == "thorough":
